@@ -659,6 +659,32 @@ func c14UseLive(out *vOut, seedCase int) {
 			}
 			out.Linef("stat use_live_grpc_calls 1")
 		}
+		// the same header on a STREAMING call (the stream interceptor attaches the metadata on its own path)
+		for i := 0; i < 2; i++ {
+			gotMD = nil
+			cctx, cancel := context.WithTimeout(ctx, 5*time.Second)
+			stream, err := conn.NewStream(cctx, &grpc.StreamDesc{StreamName: "Stream", ServerStreams: true, ClientStreams: true}, "/verif.Service/Stream")
+			checkErr("configgrpc.client.NewStream", err)
+			if err == nil {
+				_ = stream.SendMsg(&emptypb.Empty{})
+				_ = stream.CloseSend()
+				err = stream.RecvMsg(&emptypb.Empty{})
+				checkErr("configgrpc.client.stream.RecvMsg", err)
+			}
+			cancel()
+			if status.Code(err) != codes.Unimplemented {
+				out.Linef("stat use_live_grpc_stream_failed 1")
+				continue
+			}
+			if len(gotMD) != 1 || gotMD[0] != reqSecret {
+				got := "-"
+				if len(gotMD) > 0 && gotMD[0] != reqSecret {
+					got = vHex(gotMD[0]) // not the secret: safe to print
+				}
+				out.Linef("viol sig=C14/use/header-not-delivered/configgrpc.ClientConfig.Headers/stream n=%d got=%s", len(gotMD), got)
+			}
+			out.Linef("stat use_live_grpc_streams 1")
+		}
 	}()
 	// the zPages extension logs its whole configuration (`zap.Any("config", …)`, Gen/OpaqueCensus.lean `renders`): start it
 	// with secret response headers under the recording logger
